@@ -37,6 +37,8 @@ theorem schedLen_pos (g : GoCron) : decide (GoCron.schedLen g > 0) = g.rest.head
     | nil => exact absurd hp this
     | cons x xs => simp
 
+@[simp] theorem toGenTask_ScheduledAt (t : Gk.Task) : (toGenTask t).ScheduledAt = t.scheduledAt := rfl
+
 theorem head_toCron (g : GoCron) : g.toCron.head = g.rest.head := rfl
 
 theorem stopDrainC (c : Clock) :
@@ -81,5 +83,82 @@ theorem tie_cron_NextScheduled (g : GoCron) : CronStore.NextScheduled g = g.toCr
     simp [CronStore.NextScheduled, Gk.Cron.nextScheduled, hhead, hh, schedLen_pos, GoCron.schedPeek, Go.time_Zero]
 
 theorem tie_cron_LastTimerUpdateError (g : GoCron) : CronStore.LastTimerUpdateError g = none := rfl
+
+/-! ### `Peek` and `Pop` (translated) = the model's `Cron.peek` / `Cron.pop` -/
+
+/-- the model's `pop` is: drop the head, `pushNext`, `resetTimer` — the three steps the glue names -/
+theorem pop_eq (c : Gk.Cron) : c.pop = match c.head with
+    | none => (c, none)
+    | some t => (((c.dropHead t).pushNext t).resetTimer, some t.task) := by
+  unfold Gk.Cron.pop
+  cases c.head <;> rfl
+
+theorem schedLen_zero (g : GoCron) : (GoCron.schedLen g == 0) = g.rest.head.isNone := by
+  have h := schedLen_pos g
+  unfold GoCron.schedLen at *
+  cases hh : g.rest.head with
+  | none => simp [(head_none_iff g.rest).1 hh]
+  | some x =>
+    rw [hh] at h
+    cases hp : g.rest.pending with
+    | nil => rw [hp] at h; simp at h
+    | cons y ys => simp; omega
+
+theorem pushNext_frame (c : Gk.Cron) (t : WTask) :
+    (c.pushNext t).clock = c.clock ∧ (c.pushNext t).started = c.started ∧ (c.pushNext t).fixed = c.fixed := by
+  unfold Gk.Cron.pushNext
+  split
+  · exact ⟨rfl, rfl, rfl⟩
+  · split
+    · exact ⟨rfl, rfl, rfl⟩
+    · dsimp only
+      split <;> exact ⟨rfl, rfl, rfl⟩
+
+theorem pushNext_toCron (g : GoCron) (t : GoWrapped) : (GoCron.pushNext g t).toCron = g.toCron.pushNext t.w := by
+  obtain ⟨h1, h2, _⟩ := pushNext_frame g.toCron t.w
+  have : g.toCron.pushNext t.w = { (g.toCron.pushNext t.w) with started := g.isTimerStarted, clock := g.clock } := by
+    cases hx : g.toCron.pushNext t.w
+    rw [hx] at h1 h2
+    have e1 : g.toCron.clock = g.clock := rfl
+    have e2 : g.toCron.started = g.isTimerStarted := rfl
+    rw [e1] at h1; rw [e2] at h2
+    simp only at h1 h2
+    subst h1; subst h2; rfl
+  rw [this]; rfl
+
+theorem clone_toGenTask (t : Gk.Task) : (toGenTask t).Clone = toGenTask t := by
+  simp [Gen.Def.Task.Clone, Go.maps_Clone, toGenTask]
+
+/-- the answer of `Peek` / `Pop` for a model answer -/
+def cronAns : Option Gk.Task → Gen.Def.Task × GoError
+  | none => ((default : Gen.Def.Task), Go.repoErr (Kind := Gen.Def.Exhausted))
+  | some t => (toGenTask t, none)
+
+theorem tie_cron_Peek (g : GoCron) (ctx : Ctx) : CronStore.Peek g ctx = cronAns g.toCron.peek := by
+  have hhead : g.toCron.head = g.rest.head := rfl
+  unfold CronStore.Peek Gk.Cron.peek
+  rw [schedLen_zero, hhead]
+  cases hh : g.rest.head with
+  | none => rfl
+  | some h => simp [GoCron.schedPeek, hh, cronAns, clone_toGenTask, Go.nil]
+
+theorem tie_cron_Pop (g : GoCron) (ctx : Ctx) (hf : g.rest.fixed = true) :
+    (CronStore.Pop g ctx).1.toCron = (g.toCron.pop).1 ∧ (CronStore.Pop g ctx).2 = cronAns (g.toCron.pop).2 := by
+  have hhead : g.toCron.head = g.rest.head := rfl
+  rw [pop_eq, hhead]
+  unfold CronStore.Pop
+  rw [schedLen_zero]
+  cases hh : g.rest.head with
+  | none => exact ⟨rfl, rfl⟩
+  | some h =>
+    have hpop : GoCron.schedPop g = ({ g with rest := g.rest.dropHead h }, { Task := toGenTask h.task, w := h }) := by
+      simp [GoCron.schedPop, hh]
+    simp only [Option.isNone_some, Bool.false_eq_true, if_false, hpop]
+    have hfix : (GoCron.pushNext { g with rest := g.rest.dropHead h } { Task := toGenTask h.task, w := h }).rest.fixed = true := by
+      show (Gk.Cron.pushNext _ _).fixed = true
+      rw [(pushNext_frame _ _).2.2]; exact hf
+    refine ⟨?_, rfl⟩
+    rw [tie_cron_resetTimer _ hfix, pushNext_toCron]
+    rfl
 
 end Gk.Tie
